@@ -44,6 +44,7 @@ func check(c Case, ev *evid.Collector) *evid.Violation {
 	mountPairing := c.Pairing == "same-reg" && c.SrcFeat.MountGrant
 	nt := g.HasLabel("shared-blob") || g.HasLabel("duplicate-layer") || g.HasLabel("shared-manifest") || len(c.Pre.Keep) > 0 || mountPairing
 	classes := []string{"pairing:" + c.Pairing, "pre:" + c.Pre.Mode}
+	classes = append(classes, c.ClientClasses()...)
 	if mountPairing {
 		classes = append(classes, "mount-granted")
 	}
@@ -59,7 +60,7 @@ func check(c Case, ev *evid.Collector) *evid.Violation {
 	classes = append(classes, "outcome:success")
 	ev.Case(nt, g.Shape()+"|"+c.Pairing+"|"+c.Pre.Mode+fmt.Sprint(len(c.Pre.Keep))+fmt.Sprint(c.SrcFeat.MountGrant, c.TgtFeat.AnonMount), classes...)
 
-	log := e.M.Entries()
+	log := e.M.Entries()[e.WarmRequests:] // what the copy itself sent (a warm-up of the client comes before)
 	srcObservable := e.Src.Kind == "reg"
 	tgtObservable := e.Tgt.Kind == "reg"
 	isSrc := func(x *rm.Entry) bool { return srcObservable && x.Host == e.Src.Host.Name && x.Repo == e.Src.Repo }
